@@ -129,6 +129,11 @@ pub fn c02_step(recv: &mut vt100::Parser, p: &vt100::Screen, s: &vt100::Screen) 
     let got = obs(recv.screen());
     if let Some(d) = obs_diff(&want, &got, offset, true) {
         let mut key = c02_key(p, s, &got, &want);
+        // inside the region where the diff is PROVED to reproduce (both screens at offset 0, every line
+        // satisfies the side conditions of DiffWrap.state_diff_wrapped) no failure is a listed finding
+        if !offset && p.scrollback() == 0 && (key.starts_with("F8a-") || key.starts_with("F8b-")) && crate::lines_ok_w(&want, &obs(p)) {
+            key = format!("inside-proved-region-{key}");
+        }
         if (offset && s.cursor_position().1 >= cols) || (p.scrollback() > 0 && p.cursor_position().1 >= cols) {
             key = "F9-offset-pending-wrap".into();
         }
